@@ -7,6 +7,7 @@ import glob, json, os, re, shutil, subprocess, sys, tempfile, time
 
 REPO = os.environ.get('VERIF_REPO', '/repo')
 NSHARDS = 8
+STRICT = ['-std=c99', '-pedantic-errors', '-D_POSIX_C_SOURCE=199309L']
 CFLAGS = ['-Wall', '-Wextra', '-Werror=vla', '-Werror=declaration-after-statement', '-std=c99', '-pedantic', '-D_POSIX_C_SOURCE=199309L']
 
 # one snippet per public header: it must not compile unless that header's declarations are really visible
@@ -59,6 +60,10 @@ def tu_source(hset, fname, with_main, other=None):
     return s
 
 
+def stage(src):
+    return os.path.join(os.path.dirname(src), 'stage')
+
+
 def build_library(work):
     src = os.path.join(work, 'tree')
     shutil.copytree(REPO, src, ignore=shutil.ignore_patterns('.git', '*.o', '*.d', '*.a', '*.so', '*.gcno', '*.gcda', 'check', 'run', '_seed'))
@@ -66,6 +71,14 @@ def build_library(work):
         os.makedirs(os.path.join(src, d), exist_ok=True)
     r = run(['make', '-C', src, 'build'])
     ok = r.returncode == 0 and os.path.exists(os.path.join(src, 'build', 'libcstl.a')) and os.path.exists(os.path.join(src, 'build', 'libcstl.so'))
+    if ok:
+        # a client uses the INSTALLED product: the two libraries and the public headers staged elsewhere, the build by-products gone
+        st = stage(src)
+        os.makedirs(os.path.join(st, 'lib'))
+        shutil.copy(os.path.join(src, 'build', 'libcstl.a'), os.path.join(st, 'lib'))
+        shutil.copy(os.path.join(src, 'build', 'libcstl.so'), os.path.join(st, 'lib'))
+        shutil.copytree(os.path.join(src, 'include'), os.path.join(st, 'include'))
+        shutil.rmtree(os.path.join(src, 'build'))
     return src, ok, r.stdout[-3000:]
 
 
@@ -73,7 +86,7 @@ def one_case(src, work, hset, ntu, kind, tag):
     """returns (ok, diagnostics)"""
     d = os.path.join(work, tag)
     os.makedirs(d, exist_ok=True)
-    inc = ['-I' + os.path.join(src, 'include')]
+    inc = ['-I' + os.path.join(stage(src), 'include')]
     objs, log = [], ''
     tus = [('tu1', True, 'tu2' if ntu == 2 else None)] + ([('tu2', False, None)] if ntu == 2 else [])
     for name, wm, other in tus:
@@ -84,12 +97,16 @@ def one_case(src, work, hset, ntu, kind, tag):
         # warnings are not errors; only a failing compile counts
         if r.returncode != 0:
             return False, 'compile of %s failed:\n%s' % (name, r.stdout[-1500:])
+        # the same translation unit as a strictly conforming C99 program: constraint violations the headers commit are errors there
+        r = run(['gcc'] + STRICT + inc + ['-fsyntax-only', c])
+        if r.returncode != 0:
+            return False, 'compile of %s as strictly conforming C99 (-std=c99 -pedantic-errors) failed:\n%s' % (name, r.stdout[-1500:])
         objs.append(o)
     exe = os.path.join(d, 'prog')
     if kind == 'a':
-        cmd = ['gcc', '-o', exe] + objs + [os.path.join(src, 'build', 'libcstl.a'), '-lm']
+        cmd = ['gcc', '-o', exe] + objs + [os.path.join(stage(src), 'lib', 'libcstl.a'), '-lm']
     else:
-        cmd = ['gcc', '-o', exe] + objs + ['-L' + os.path.join(src, 'build'), '-lcstl', '-lm', '-Wl,-rpath,' + os.path.join(src, 'build')]
+        cmd = ['gcc', '-o', exe] + objs + ['-L' + os.path.join(stage(src), 'lib'), '-lcstl', '-lm', '-Wl,-rpath,' + os.path.join(stage(src), 'lib')]
     r = run(cmd)
     if r.returncode != 0:
         return False, 'link against libcstl.%s failed:\n%s' % ('a' if kind == 'a' else 'so', r.stdout[-1500:])
@@ -105,7 +122,7 @@ def declared_functions(src, work):
     c = os.path.join(work, 'all.c')
     open(c, 'w').write(''.join('#include "cstl/%s"\n' % h for h in hs))
     aux = os.path.join(work, 'all.aux')
-    r = run(['gcc'] + CFLAGS + ['-I' + os.path.join(src, 'include'), '-aux-info', aux, '-c', c, '-o', os.path.join(work, 'all.o')])
+    r = run(['gcc'] + CFLAGS + ['-I' + os.path.join(stage(src), 'include'), '-aux-info', aux, '-c', c, '-o', os.path.join(work, 'all.o')])
     if r.returncode != 0:
         return None, r.stdout[-2000:]
     names = []
@@ -133,8 +150,8 @@ def address_client(src, work, kind):
     body += 'int main(void) { unsigned i, n = 0; for (i = 0; i < sizeof(table) / sizeof(table[0]); i++) n += table[i] != 0; return n == sizeof(table) / sizeof(table[0]) ? 0 : 1; }\n'
     open(c, 'w').write(body)
     exe = os.path.join(work, 'addr_' + kind)
-    base = ['gcc'] + CFLAGS + ['-I' + os.path.join(src, 'include'), c, '-o', exe]
-    cmd = base + ([os.path.join(src, 'build', 'libcstl.a'), '-lm'] if kind == 'a' else ['-L' + os.path.join(src, 'build'), '-lcstl', '-lm', '-Wl,-rpath,' + os.path.join(src, 'build')])
+    base = ['gcc'] + CFLAGS + ['-I' + os.path.join(stage(src), 'include'), c, '-o', exe]
+    cmd = base + ([os.path.join(stage(src), 'lib', 'libcstl.a'), '-lm'] if kind == 'a' else ['-L' + os.path.join(stage(src), 'lib'), '-lcstl', '-lm', '-Wl,-rpath,' + os.path.join(stage(src), 'lib')])
     r = run(cmd)
     if r.returncode != 0:
         return False, 'a function declared by the public headers is not provided by libcstl.%s:\n%s' % ('a' if kind == 'a' else 'so', r.stdout[-2000:]), len(names)
